@@ -165,7 +165,9 @@ pub fn search(seed: u64, budget: &Budget, thorough: bool) -> (u64, Option<(Strin
         let p = rng.bytes(pl, alpha);
         let mut t = rng.bytes(rng.below(60) as usize, alpha);
         if rng.below(2) == 0 { let mut q = p.clone(); if !q.is_empty() && rng.below(2) == 0 { let i = rng.below(q.len() as u64) as usize; q[i] = *rng.pick(alpha); } let at = rng.below(t.len() as u64 + 1) as usize; let tail = t.split_off(at); t.extend(q); t.extend(tail); }
-        let k = rng.below(6) as usize;
+        // (three searches in eight with a threshold up to / around the pattern length: thresholds of one machine word and more start the
+        // block-based matcher with several blocks)
+        let k = match rng.below(8) { 0 => rng.below(pl as u64 + 3) as usize, 1 | 2 => (pl + rng.below(3) as usize).saturating_sub(1), _ => rng.below(6) as usize };
         if pl > 8 && rng.below(2) == 0 {
             // multi-word pattern, text = noise + copy of the pattern with exactly <= k edits + noise
             let mut q = p.clone();
